@@ -1,3 +1,5 @@
 /* happens-before monitor switched off */
-void __vf_hb_acquire(void *o){} void __vf_hb_release(void *o){} void __vf_hb_fork(int c){} void __vf_hb_join(int c){}
-void __vf_acc(void *p, unsigned long n, int kind){}
+#include <stddef.h>
+void __vf_hb_acquire(void *o){} void __vf_hb_release(void *o){} void __vf_hb_fork(int c){} void __vf_hb_join(int c){} void __vf_hb_init(void){}
+void __vf_acc(void *p, size_t n, int kind){}
+void __vf_hb_track(void *p){}
